@@ -120,6 +120,19 @@ def corpus():
                                                    ["case", [[["cmp", "==", ["f", "a", ["t", 0]], 1], ["v", "one"]]], ["v", "other"], "c"],
                                                    ["fn", "f", [["f", "a", ["t", 0]]], "fa", ["schema", "fs", None]]]]], {}],
                 "others": [], "hist": _h(["str"], sql_all, [["sub", 2], ["hash"]], [["sub", 2], sql_all], [["sub", 7], ["agg"]], ["str"])})
+    # WITH references validated at render time (160d589): defined, and missing (every rendering raises JoinException;
+    # with two missing names the *message* lists a set — exception text, not a rendering)
+    for defined in (True, False):
+        steps = [["from_", [["t", 0]]],
+                 ["join_on", [["t", 1], ["and", ["cmp", "==", ["f", "id", ["t", 0]], ["f", "id", ["t", 2]]],
+                                                 ["cmp", "==", ["f", "id", ["t", 1]], ["f", "id", ["t", 3]]]]]],
+                 ["select", ["a", ["f", "b", ["t", 2]]]]]
+        if defined:
+            steps += [["with_", [["q", "Query", [["from_", [["t", 1]]], ["select", ["id", "b"]]], {}], "w1"]],
+                      ["with_", [["q", "Query", [["from_", [["t", 1]]], ["select", ["id"]]], {}], "w2"]]]
+        out.append({"tables": [T0, T1, ["aliased", "w1", None], ["aliased", "w2", None]], "subs": [], "kind": "corpus",
+                    "obj": ["q", "Query", steps, {}], "others": [],
+                    "hist": _h(["str"], ["sql", {"quote_char": "`", "query_alias_quote_char": "'"}], ["hash"], ["str"], ["eq", "twin"])})
     # set operation, DDL
     out.append({"tables": [T0, T1], "subs": [], "kind": "corpus",
                 "obj": ["setop", ["q", "Query", [["from_", [["t", 0]]], ["select", ["a", "b"]]], {}],
@@ -273,7 +286,7 @@ def _clause(a, b_):
     while i < min(len(a), len(b_)) and a[i] == b_[i]:
         i += 1
     ms = [m for m in _KW.finditer(a[:i])]
-    return ms[-1].group(0).strip() if ms else "text"
+    return " ".join(ms[-1].group(0).split()[-3:]) if ms else "text"     # at most three keywords: "FOR UPDATE OF"
 
 
 def _first_diff(xs, ys):
